@@ -23,7 +23,7 @@ def combos(ctx, rnd):
         if rnd.random() < 0.25:
             pieces.append(pieces[0])
         ex = [rnd.choice(excls) for _ in range(rnd.choice([0, 0, 1, 2]))]
-        fl = S | rnd.choice([0, NU, I, I | NU, ND, SD, SD | NU, D, C | I])
+        fl = S | rnd.choice([0, NU, I, I | NU, ND, SD, SD | NU, D, C | I, G.FORCEWIN, G.FORCEWIN | G.FORCEUNIX, G.FORCEUNIX | NU, G.FORCEWIN | NU])
         form = rnd.choice(['list_kw', 'list_inline', 'split', 'brace'])
         if form == 'list_kw' or not ex and form == 'list_inline':
             cases.append((list(pieces), tuple(pieces), tuple(ex), fl, True))
@@ -50,9 +50,18 @@ def combos(ctx, rnd):
             for fl in (S, S | D):
                 cases.append((list(inc), tuple(inc), tuple(ex), fl, True))
                 cases.append((list(inc) + ['!' + e for e in ex], tuple(inc), tuple(ex), fl | N, False))
+    # the platform flags are stripped by glob() (the real file system decides): the case rule of the uniqueness filter must follow
+    for fl in (G.FORCEWIN, G.FORCEWIN | G.FORCEUNIX, G.FORCEWIN | S | NU, G.FORCEUNIX | I):
+        for pieces in (('[a]*', '[A]*'), ('a', 'A'), ('*', 'A*'), ('u*', 'U*', '*')):
+            cases.append((list(pieces), pieces, (), fl, True))
+    # absolute patterns mixed with relative ones, in both orders (state kept per pattern must not leak into the next one)
+    for pieces in (('$ROOT/a/*', '*/x'), ('*/x', '$ROOT/a/*'), ('$ROOT/*', '*/*'), ('$ROOT/f', '*/**/x'), ('$ROOT/a', 'a/*', '*/*/x'), ('$ROOT/**/x', '**/d'), ('a', '$ROOT/a')):
+        for fl in (S, S | NU):
+            cases.append((list(pieces), pieces, (), fl, True))
+            cases.append(('|'.join(pieces), pieces, (), fl | SP, False))
     out = []
     for k, c in enumerate(cases):
-        ts = names if not ctx.quick else [names[(k + j) % len(names)] for j in range(3)] + (['case'] if c[3] & I else [])
+        ts = names if not ctx.quick else [names[(k + j) % len(names)] for j in range(3)] + (['case'] if c[3] & (I | G.FORCEWIN | G.FORCEUNIX) else [])
         for t in ts:
             out.append(('c13', t, c))
     return out
